@@ -366,6 +366,8 @@ class HdlcFrameReader(MeterReaderBase[HdlcFrame]):
 
     def _handle_flag_sequence(self) -> bool:
         frame_complete = False
+        # A flag sequence ends a pending control escape (RFC 1662, 4.2)
+        self._unescape_next = False
 
         if self._frame is None:
             _LOGGER.debug("Found flag sequence in frame hunt mode")
@@ -373,7 +375,7 @@ class HdlcFrameReader(MeterReaderBase[HdlcFrame]):
 
         elif len(self._frame) == 0:
             # Found new flag sequence. Two is normal ( end + start), one is allowed, and many possible if time fill.
-            pass
+            self._raw_frame_data.clear()
 
         elif self._frame.header.header_check_sequence is None:
             # Frames which are too short are silently discarded, and not counted as a FCS error.
